@@ -294,6 +294,24 @@ class Function:
                     x["src_op"] = ">" if x["op"] == "<" else ">="      # `span` stays in source order (used by selftest/commute.py only)
                 if x.get("k") == "bin" and x.get("op") in _COMMUTATIVE and len(x.get("c", ())) == 2 and "ordered" not in x:
                     commutative.append(x)
+                if x.get("k") in ("if", "cond") and "polar" not in x:
+                    # canonical polarity: `if (!c) A else B` is `if (c) B else A` (likewise `!c ? a : b`); double negations are dropped
+                    x["polar"] = True
+                    cs = x.get("c", ())
+                    r_ = x.get("r")
+                    ci = r_.index("cond") if r_ and "cond" in r_ else (0 if x["k"] == "cond" else None)
+                    ti = r_.index("then") if r_ and "then" in r_ else (1 if x["k"] == "cond" else None)
+                    ei = r_.index("else") if r_ and "else" in r_ else (2 if x["k"] == "cond" and len(cs) == 3 else None)
+                    if ci is not None and ti is not None and ei is not None and ci < len(cs) and ei < len(cs) and cs[ci] is not None and cs[ti] is not None and cs[ei] is not None:
+                        c_, nots = cs[ci], 0
+                        while c_ is not None and ((c_.get("k") == "un" and c_.get("op") == "!") or c_.get("k") == "paren") and c_.get("c"):
+                            nots += c_.get("k") == "un"
+                            c_ = c_["c"][0]
+                        if nots and c_ is not None:
+                            cs[ci] = c_
+                            if nots % 2:
+                                cs[ti], cs[ei] = cs[ei], cs[ti]
+                                x["inverted"] = True
                 nodes.setdefault(x["i"], x)
                 parent[x["i"]] = p
                 for ch in reversed(x.get("c", ())):
